@@ -31,7 +31,9 @@ HK == Cmp("=", Path("h"), Val(":h"))
 Trace(v) == << AddTable("c1", T1, "h", ""), Put(T1, Key @@ [val |-> v]), Get(T1, Key),
                ScanOp("c1", T1, NoIndex, NoFilter, <<>>, <<>>),
                QueryOp("c1", T1, NoIndex, HK, NoFilter, <<>>, One(":h", S1(107)), TRUE),
-               [op |-> "BatchGet", c |-> "c1", reqs |-> <<[t |-> T1, keys |-> <<Key>>]>>] >>
+               [op |-> "BatchGet", c |-> "c1", reqs |-> <<[t |-> T1, keys |-> <<Key>>]>>],
+               \* overwritten by an item with as many attributes under another name: nothing of the old value may survive
+               Put(T1, Key @@ [other |-> v]), Get(T1, Key), Put(T1, Key @@ [val |-> Str(<<122>>)]), Get(T1, Key) >>
 ASSUME \A v \in Universe : PrintT(ToJson([kind |-> "trace", ops |-> Trace(v)]))
 ASSUME PrintT(ToJson([kind |-> "count", n |-> Cardinality(Universe)]))
 SetupDef == <<>>
